@@ -101,7 +101,7 @@ def m_tuple_container(case, holds_fn=None):
     """F4: a container that is an item of a tuple has to be edited.  Predicted outcome: the write into the parent
     tuple fails - logged ('tuple' object does not support item assignment -> result differs / error logged) or
     RuntimeError / TypeError raised.  Attributed only if the case passes once tuples are lists."""
-    if not case.get("container_in_tuple") or _refuse(case):
+    if not case.get("container_in_tuple") or not case.get("tuple_item_replaced", True) or _refuse(case):
         return False
     if case.get("clause") == RAISED and case.get("exc_class") not in ("RuntimeError", "TypeError", "AttributeError", "DeltaError"):
         return False
@@ -144,17 +144,72 @@ def has_retype(t1, t2):
     return isinstance(t1, (list, tuple, dict, set, frozenset)) or isinstance(t2, (list, tuple, dict, set, frozenset))
 
 
+def f7_explains(t1, t2, r):
+    """Does F7's mechanism explain the observed result r?  Walk the pairing of the ordered diff (lists / tuples
+    positionally, dicts by key): away from type changes r must be t2 (typed); at a type change t1' -> t2' whose values
+    the delta omits (new_type(t1') == t2' in Python's sense) r must hold what the constructor call builds,
+    new_type(t1') (for a set / frozenset source: in any iteration order), and that must differ from t2' by its types
+    or order.  Returns the number of such positions, or None when something else differs."""
+    if V.typed_eq(r, t2):
+        return 0
+    if type(t1) is type(t2):
+        if type(r) is not type(t2):
+            return None
+        if isinstance(t2, (list, tuple)):
+            if len(r) != len(t2):
+                return None
+            hits = 0
+            for i in range(len(t2)):
+                h = f7_explains(t1[i], t2[i], r[i]) if i < len(t1) else (0 if V.typed_eq(r[i], t2[i]) else None)
+                if h is None:
+                    return None
+                hits += h
+            return hits
+        if isinstance(t2, dict):
+            if not V.typed_eq(sorted(map(repr, map(V.canon_atom, r))), sorted(map(repr, map(V.canon_atom, t2)))):
+                return None
+            hits = 0
+            for k in t2:
+                h = f7_explains(t1[k], t2[k], r[k]) if k in t1 else (0 if V.typed_eq(r[k], t2[k]) else None)
+                if h is None:
+                    return None
+                hits += h
+            return hits
+        return None
+    if not isinstance(t2, (list, tuple, dict, set, frozenset)):
+        return None
+    try:
+        p = type(t2)(copy.deepcopy(t1))
+    except Exception:
+        return None
+    if not (p == t2):
+        return None                     # the values are stored in the delta: not F7's situation
+    if V.typed_eq(r, p):
+        return 1
+    if isinstance(t1, (set, frozenset)) and type(r) is type(p) and isinstance(p, (list, tuple)) and len(r) == len(p) \
+            and sorted(map(repr, map(V.canon, r))) == sorted(map(repr, map(V.canon, p))):
+        return 1
+    return None
+
+
 def m_unordered_conv(case, holds_fn=None):
     """F7: a type change whose values were omitted although new_type(old_value) does not reproduce the new
     value with its types (set/frozenset -> list/tuple iteration order; nested set vs frozenset).  Predicted
-    outcome: a wrong RESULT without any error (the constructor call succeeds).  Attributed only if a container
-    type change is present, nothing was raised or logged, and the case passes once the values are always included"""
+    outcome: a wrong RESULT without any error, and exactly the one the constructor call builds: the observed result is
+    t2 everywhere except at such type changes, where it holds new_type(old_value) (f7_explains replays the mechanism).
+    Attributed only then, and if the case passes once the values are always included"""
     if case.get("always_include_values") or _refuse(case) or case.get("okb"):
         return False
-    if case.get("clause") in (RAISED, LOGGED):
+    if case.get("clause") in (RAISED, LOGGED) or case.get("errors"):
         return False
     t1, t2, cfg, always = _inputs(case)
     if not has_retype(t1, t2):
+        return False
+    try:
+        r = eval(case.get("observed", ""))
+    except Exception:
+        return False
+    if not f7_explains(t1, t2, r):
         return False
     return (holds_fn or holds)(t1, t2, cfg, True)
 
@@ -173,8 +228,36 @@ def has_set_to_seq(t1, t2):
     return False
 
 
+def tuple_item_replaced(t1, t2):
+    """F4's exact feature: along the pairing of the ordered diff (lists / tuples positionally, dicts by key) some
+    item of a TUPLE that is, or becomes, a container has to be replaced as an object - the paired items differ and are
+    not both lists / both dicts (those are mutated in place and work), or the tuple changes its length while holding
+    a container"""
+    _C = (list, tuple, dict, set, frozenset)
+    if type(t1) is not type(t2):
+        return False
+    if isinstance(t1, tuple):
+        if len(t1) != len(t2):
+            return any(isinstance(x, _C) for x in t1 + t2)
+        for x, y in zip(t1, t2):
+            if V.typed_eq(x, y):
+                continue
+            if (isinstance(x, list) and isinstance(y, list)) or (isinstance(x, dict) and isinstance(y, dict)):
+                if tuple_item_replaced(x, y):
+                    return True
+            elif isinstance(x, _C) or isinstance(y, _C):
+                return True
+        return False
+    if isinstance(t1, list):
+        return any(tuple_item_replaced(x, y) for x, y in zip(t1, t2))
+    if isinstance(t1, dict):
+        return any(tuple_item_replaced(t1[k], t2[k]) for k in t1 if k in t2)
+    return False
+
+
 def describe(t1, t2):
     return dict(container_in_tuple=DC.has_container_in_tuple(t1) or DC.has_container_in_tuple(t2),
+                tuple_item_replaced=tuple_item_replaced(t1, t2),
                 alias=V.contains_alias(t1, t2), set_to_seq_type_change=has_set_to_seq(t1, t2))
 
 
